@@ -8,7 +8,7 @@ Open Scope list_scope.
 
 (* ---- what a run delivered ---- *)
 Definition is_data_line (l : oline) : bool :=
-  match l with OJson _ | OText _ | OEntry _ | OPath _ _ | ODump _ _ => true | _ => false end.
+  match l with OJson _ | OText _ | OEntry _ | OPath _ _ | ODump _ _ | ODumpPartial => true | _ => false end.
 (* the data lines of stdout: everything except the usage hint, warnings, progress messages, separators *)
 Definition data_lines (out : list oline) : list oline := filter is_data_line out.
 
@@ -56,6 +56,10 @@ Definition set_post (a : set_args) (saveto : nat -> lres nat) (change : nat -> c
   | ChNothing => d1
   | _ => match change d1 with ChOk d2 => d2 | ChYpe _ d2 => d2 | _ => d1 end
   end.
+
+(* what the written text reloads to: the post-state itself for YAML, its JSON view for JSON *)
+Definition set_written (a : set_args) (flow : nat -> bool) (jsonview : nat -> nat) (d : nat) : nat :=
+  if negb (flow d) && negb (sa_is_json_ext a) then d else jsonview d.
 
 (* ---- yaml-paths: the search results ---- *)
 Definition result_texts (xs : expr_results) : list string :=
